@@ -208,6 +208,8 @@ def level_classes(spec, r, rl, note):
              f"kind={layout_kind(n, boxes)}",
              "layout=" + ("proc" if rs["per_proc"] else "onefile") + "+"
              + ("grouped" if spec["grouped"] else "ungrouped"))
+    if any(g["rl"] == rl for g in rs.get("regrid", [])):
+        note.cls("level-regridded-during-restart")
     return len(boxes) >= 2 and len(set(n)) > 1
 
 
@@ -297,6 +299,58 @@ def run_read(case, note, spec=None, tagprefix=""):
 
 def test_read(case, note):
     run_read(case, note)
+
+
+def test_regridded(case, note):
+    """One-file layouts in which a level changes its components during a
+    restart (Carpet regridding). read_ET_variables / read_ET_group_or_var
+    count the components per iteration, so every iteration of the restart
+    must come back exactly, whatever the order of the two decompositions.
+    (The iteration catalogue behind read_data assumes fixed components per
+    level, so this goes through read_ET_variables directly.)"""
+    spec = build_spec(case, per_proc=False)
+    cands = [(rs, g) for rs in spec["restarts"]
+             for g in rs.get("regrid", [])]
+    note.cls("grouped" if spec["grouped"] else "ungrouped")
+    if not cands:
+        note.cls("no-restart-long-enough-to-regrid")
+        return
+    d = scratch_dir()
+    try:
+        root = etgen.write_sim(d, spec)
+        param = etgen.param_for(root, spec["sim"])
+        for rs, g in cands:
+            r, rl = rs["r"], g["rl"]
+            n0, n1 = len(rs["boxes"][rl]), len(g["boxes"])
+            note.cls("components:" + ("more" if n1 > n0 else "fewer"
+                                      if n1 < n0 else "same-count"),
+                     f"chunks={nclass(n0)}->{nclass(n1)}")
+            note.nt(n0 != n1 and len(set(spec["levels"][rl]["n"])) > 1)
+            its_r = etgen.its_of(spec, r, rl)
+            sel = case["req"]["itsel"]
+            its = sorted({its_r[k % len(its_r)] for k in sel}
+                         | {g["from_it"], its_r[0]})
+            if case["req"]["varsel"] and case["req"]["varsel"][0] % 2:
+                its = list(its_r)
+            vars_r = [etgen.aurel_name(v)
+                      for v in etgen.variables(spec)][:3]
+
+            def fail(disc, obs, n0=n0, n1=n1, its=its):
+                note.fail("regrid:" + disc, dict(
+                    obs, components_before=n0, components_after=n1,
+                    from_it=g["from_it"], its=its))
+            try:
+                vf = quiet(rd.get_content, param, restart=r, verbose=False)
+                out = quiet(rd.read_ET_variables, param, list(vars_r), vf,
+                            it=list(its), rl=rl, restart=r)
+            except Exception as e:  # noqa: BLE001
+                fail("raises", dict(error=f"{type(e).__name__}: {e}"[:300],
+                                    restart=r))
+                continue
+            check_result(out, spec, dict(it=its, vars=vars_r, rl=rl,
+                                         restart=r), list(its), "", fail)
+    finally:
+        shutil.rmtree(d, ignore_errors=True)
 
 
 def test_ghost0(case, note):
@@ -637,6 +691,9 @@ def subchecks(tier):
         Sub("layouts4", sim_case(["4-8", "9-27"], nlev_max=2,
                                  fixed_layout=False), test_layouts4,
             32 if q else 1600, shards=8 if q else 16),
+        Sub("regridded", sim_case(["1", "2", "3", "4-8"], nlev_max=2,
+                                  regrid=True), test_regridded,
+            64 if q else 2000, shards=4 if q else 16),
         Sub("unsupported", sim_case(["1"], unsupported=True, nlev_max=2),
             test_unsupported, 64 if q else 1200, generic=GENERIC_UNSUPPORTED,
             shards=8 if q else 16),
